@@ -3,12 +3,13 @@ import ElfioVerif.Driver.Common
 import ElfioVerif.Model.Load
 import ElfioVerif.Model.Validate
 import ElfioVerif.Model.Writer
+import ElfioVerif.Model.Inspect
 import ElfioVerif.Driver.LoadC18
 namespace ElfioVerif.Drv.Load
 open ElfioVerif ElfioVerif.Drv
 
 def fnv (bs : Bytes) : Nat :=
-  bs.foldl (fun h b => ((h ^^^ b.toNat) * 1099511628211) % 18446744073709551616) 1469598103934665603
+  (bs.foldl (fun (h : UInt64) b => (h ^^^ b.toUInt64) * 1099511628211) 1469598103934665603).toNat
 
 def dataStr (d : Option Bytes) (n : Nat) : String :=
   match d with
@@ -65,6 +66,18 @@ def secSetField (c : Cls) (b : SecBuf) (f : String) (v : Nat) : SecBuf :=
 structure DObj where
   o : Obj
   saved : Bytes := []
+
+def saveLine (r : SaveRes) (sum : Bool) (file : Bool := false) : String :=
+  -- `file=1`: file-name overload onto a file limited to `budget` bytes — only the result is compared
+  if file then s!"save={r.ok} bytes=-" else
+  if sum then s!"save={r.ok} len={r.os.content.length} fnv={fnv r.os.content}"
+  else s!"save={r.ok} bytes={hexOfBytes r.os.content}"
+
+/-- ops after which an object is no longer "as built" (they run the layout or replace the object) -/
+def isSaveOp (t : List String) : Bool :=
+  match t with
+  | op :: _ => op == "save" || op == "savefile" || op == "reload" || op == "savefresh"
+  | [] => false
 
 def wstep (d : DObj) (t : List String) : Option (M (DObj × String)) :=
   let o := d.o
@@ -147,7 +160,20 @@ def wstep (d : DObj) (t : List String) : Option (M (DObj × String)) :=
   | "save" :: rest => some do
     let os : OStream := { budget := (kv? rest "budget").map parseNat }
     let r ← save o os
-    pure ({ o := r.obj, saved := r.os.content }, s!"save={r.ok} bytes={hexOfBytes r.os.content}")
+    pure ({ o := r.obj, saved := if kvn rest "file" 0 == 1 then [] else r.os.content },
+          saveLine r (kv? rest "out" == some "sum") (kvn rest "file" 0 == 1))
+  | "savefile" :: rest =>
+    -- `save(const std::string&)`: opening the file is std::filebuf's business (not modelled): by rule an
+    -- unopenable path gives false without touching the object, a full device gives false after the
+    -- layout ran, a writable path behaves like an unlimited stream
+    match kv? rest "kind" with
+    | some "ok" => some do
+      let r ← save o {}
+      pure ({ o := r.obj, saved := r.os.content }, saveLine r (kv? rest "out" == some "sum"))
+    | some "full" => some do
+      let r ← save o {}
+      pure ({ d with o := r.obj }, "save=false bytes=-")
+    | _ => some (pure (d, "save=false bytes=-"))
   | "forceoverlap" :: i :: j :: rest =>
     let delta := match rest with | [x] => parseNat x | _ => 0
     let b := d.saved
@@ -180,7 +206,115 @@ def wstep (d : DObj) (t : List String) : Option (M (DObj × String)) :=
     pure ({ d with o := r.obj }, s!"load={r.ok}")
   | _ => none
 
+-- ---- C01 inspection ops: helpers (same formats as harness/load.cpp) ----
+
+/-- bytes as the harness' `datastr( p, n )` prints them -/
+def bytesStr (v : Bytes) : String :=
+  if v.length ≤ 64 then hexOfBytes v else s!"len:{v.length}:fnv:{fnv v}"
+
+/-- boundary index set {0,1,count-1,count,count+1,size-1,size,2^32-1[,2^64-1]}, distinct, in this order -/
+def bidx (count : Nat) (size : Option Nat) (wide : Bool) : List Nat :=
+  let c := [0, 1] ++ (if count ≥ 1 then [count - 1] else []) ++ [count, count + 1] ++
+    (match size with
+     | some sz => (if sz ≥ 1 then [sz - 1] else []) ++ [sz]
+     | none => []) ++ [4294967295] ++ (if wide then [18446744073709551615] else [])
+  (c.filter fun v => wide || v ≤ 4294967295).eraseDups
+
+def noteStr : Option NoteOut → String
+  | none => "false"
+  | some n => s!"{n.type.toNat}/{bytesStr n.name}/" ++
+      (match n.desc with | some d => bytesStr d | none => "null") ++ s!"/{n.descSize.toNat}"
+
+def dynStr : GetRes → String
+  | .invalid => "false/0/0/-"
+  | .nostr t v => s!"false/{t.toNat}/{v.toNat}/-"
+  | .ok t v s => s!"true/{t.toNat}/{v.toNat}/{bytesStr s}"
+
+def symStr (r : Inspect.SymOut) : String :=
+  s!"{r.ret}/{bytesStr r.name}/{r.attrs.value.toNat}/{r.attrs.size.toNat}/{r.attrs.bind.toNat}/{r.attrs.typ.toNat}/{r.attrs.shndx.toNat}/{r.attrs.other.toNat}"
+
+def attrStr (a : Modinfo.Attr) : String := bytesStr a.1 ++ "=" ++ bytesStr a.2
+
+/-- runs the queries one after the other on the model (`Inspect.inspect`); the first fault ends the op -/
+def runQueries (o : Obj) (qs : List Inspect.Query) (render : Inspect.Query → Inspect.Out → String) :
+    Obj × Except String (List String) :=
+  let rec go (o : Obj) (qs : List Inspect.Query) (acc : List String) : Obj × Except String (List String) :=
+    match qs with
+    | [] => (o, .ok acc.reverse)
+    | q :: rest =>
+      match Inspect.inspect o q with
+      | .error f => (o, .error f.render)
+      | .ok (o1, out) => go o1 rest (render q out :: acc)
+  go o qs []
+
+/-- `count query`, then the per-index queries of the boundary set, all through `Inspect.inspect` -/
+def countedOp (o : Obj) (name : String) (numQ : Inspect.Query) (size : Obj → Option Nat) (wide : Bool)
+    (idxQ : Nat → Inspect.Query) (render : Inspect.Out → String) : Obj × String :=
+  match Inspect.inspect o numQ with
+  | .error f => (o, f.render)
+  | .ok (o1, .num n) =>
+    let ks := bidx n (size o1) wide
+    match runQueries o1 (ks.map idxQ) (fun _ out => render out) with
+    | (o2, .ok outs) =>
+      (o2, s!"{name} n={n}" ++ String.join ((ks.zip outs).map fun (k, s) => s!" {k}:{s}"))
+    | (o2, .error e) => (o2, e)
+  | .ok (o1, _) => (o1, "null")
+
+def modinfoOp (o : Obj) (i : Nat) : Obj × String :=
+  match Inspect.inspect o (.modinfo i) with
+  | .error f => (o, f.render)
+  | .ok (o1, .attrs c) =>
+    let n := (Modinfo.num c).toNat
+    let ks := bidx n none false
+    let names : List Bytes := (match c.head? with | some a => if n > 0 then [a.1] else [] | none => []) ++
+      ["zz_absent".toUTF8.toList]
+    let qs := ks.map (fun k => Inspect.Query.modinfoGet i (BitVec.ofNat 32 k)) ++
+      names.map (fun f => Inspect.Query.modinfoByName i f)
+    let render (q : Inspect.Query) (out : Inspect.Out) : String :=
+      match q, out with
+      | .modinfoGet _ k, .attr (some a) => s!" get:{k.toNat}:{attrStr a}"
+      | .modinfoGet _ k, _ => s!" get:{k.toNat}:false"
+      | .modinfoByName _ f, .value (some v) => s!" byname:{bytesStr f}={bytesStr v}"
+      | .modinfoByName _ f, _ => s!" byname:{bytesStr f}=false"
+      | _, _ => ""
+    match runQueries o1 qs render with
+    | (o2, .ok outs) =>
+      (o2, s!"modinfo n={n}" ++ String.join (((c.take n).take 64).map fun a => " " ++ attrStr a) ++ String.join outs)
+    | (o2, .error e) => (o2, e)
+  | .ok (o1, _) => (o1, "null")
+
+/-- the C01 inspection ops; `none`: not one of them -/
+def inspectStep (o : Obj) (t : List String) : Option (Obj × String) :=
+  match t with
+  | ["notes", i] =>
+    let i := parseNat i
+    some (countedOp o "notes" (.noteNum i) (fun o => (o.secs[i]?).map (·.size.toNat)) false
+      (fun k => .note i (BitVec.ofNat 32 k)) (fun out => match out with | .note r => noteStr r | _ => "?"))
+  | ["segnotes", j] =>
+    let j := parseNat j
+    some (countedOp o "segnotes" (.segNoteNum j) (fun o => (o.segs[j]?).map (·.filesz.toNat)) false
+      (fun k => .segNote j (BitVec.ofNat 32 k)) (fun out => match out with | .note r => noteStr r | _ => "?"))
+  | ["dyn", i] =>
+    let i := parseNat i
+    some (countedOp o "dyn" (.dynNum i) (fun _ => none) true
+      (fun k => .dyn i (BitVec.ofNat 64 k)) (fun out => match out with | .dyn r => dynStr r | _ => "?"))
+  | ["syms", i] =>
+    let i := parseNat i
+    some (countedOp o "syms" (.symNum i) (fun _ => none) true
+      (fun k => .sym i (BitVec.ofNat 64 k)) (fun out => match out with | .sym r => symStr r | _ => "?"))
+  | ["modinfo", i] => some (modinfoOp o (parseNat i))
+  | ["dump"] =>
+    match Inspect.inspect o .dump with
+    | .error f => some (o, f.render)
+    | .ok (o1, _) => some (o1, "dump=ok")
+  | _ => none
+-- ---- end of C01 inspection helpers ----
+
 def step (o : Obj) (t : List String) : Obj × String :=
+  -- ---- C01 inspection ops (notes, segnotes, dyn, syms, modinfo, dump): Model/Inspect.lean
+  match inspectStep o t with
+  | some r => r
+  | none =>
   match t with
   | "trans" :: rest => ({ o with trans := sortTrans (parseTrans rest) }, "ok")
   | "load" :: h :: rest =>
@@ -233,30 +367,56 @@ def step (o : Obj) (t : List String) : Obj × String :=
     let ov := cs.filter (fun c => match c with | .overlap _ _ => true | _ => false) |>.length
     let cf := cs.filterMap (fun c => match c with | .conflict h => some h | _ => none)
     (o, s!"validate overlaps={ov} conflicts={joinNats cf}")
-  | ["dump"] => (o, "dump=ok")
   | _ => (o, "bad-op")
 
 def runCase (ops : List (List String)) : List String :=
   -- a default-constructed elfio: create(ELFCLASS32, ELFDATA2LSB)
   let o0 : Obj := match create {} .c32 .lsb with | .ok o => o | .error _ => {}
   let d0 : DObj := { o := o0 }
-  let rec go (objs : List DObj) (cur : Nat) (ops : List (List String)) (acc : List String) : List String :=
+  -- `fresh`: the objects as they would be had no save/savefile/reload been executed (what the
+  -- harness rebuilds for `savefresh`); `none` while identical to `objs`
+  let rec go (objs : List DObj) (fresh : Option (List DObj)) (flen : Option Nat) (cur : Nat) (ops : List (List String)) (acc : List String) : List String :=
     match ops with
     | [] => acc.reverse
     | ["obj", k] :: rest =>
       let k := parseNat k
-      let objs := if objs.length ≤ k then objs ++ List.replicate (k + 1 - objs.length) d0 else objs
-      go objs k rest ("ok" :: acc)
+      let ext (l : List DObj) := if l.length ≤ k then l ++ List.replicate (k + 1 - l.length) d0 else l
+      go (ext objs) (fresh.map ext) none k rest ("ok" :: acc)
+    | ("savefresh" :: args) :: rest =>
+      let d := (fresh.getD objs).getD cur d0
+      -- `rel=r`: budget = length of the complete file + r (r may be negative); the length is cached in `flen`
+      let budget : M (Option Nat × Option Nat) := match kv? args "rel" with
+        | some r => do
+          let len ← match flen with
+            | some n => pure n
+            | none => do let r0 ← save d.o {}; pure r0.os.content.length
+          let ri : Int := if r.startsWith "-" then - Int.ofNat (parseNat (r.drop 1).toString) else Int.ofNat (parseNat r)
+          pure (some (Int.ofNat len + ri).toNat, some len)
+        | none => pure ((kv? args "budget").map parseNat, flen)
+      match budget >>= fun (b, fl) => (save d.o { budget := b }).map fun r => (r, fl) with
+      | .ok (r, fl) => go objs fresh fl cur rest (saveLine r (kv? args "out" == some "sum") (kvn args "file" 0 == 1) :: acc)
+      | .error f => (f.render :: acc).reverse
     | t :: rest =>
       let d := objs.getD cur d0
+      let fresh' : Option (List DObj) :=
+        if isSaveOp t then some (fresh.getD objs)
+        else match fresh with
+          | none => none
+          | some fl =>
+            let fd := fl.getD cur d0
+            match wstep fd t with
+            | some (.ok (fd', _)) => some (fl.set cur fd')
+            | some (.error _) => some fl
+            | none => some (fl.set cur { fd with o := (step fd.o t).1 })
+      let flen' := if isSaveOp t then flen else none
       match wstep d t with
-      | some (.ok (d', out)) => go (objs.set cur d') cur rest (out :: acc)
+      | some (.ok (d', out)) => go (objs.set cur d') fresh' flen' cur rest (out :: acc)
       | some (.error f) => (f.render :: acc).reverse
       | none =>
         -- ---- C18 table query ops (rel, symname, symvalue, arr32, arr64, versym, verneed, verdef, arrange, swap, alarm)
         let (o', out) := match LoadC18.step d.o t with | some r => r | none => step d.o t
         if out.startsWith "FAULT" then (out :: acc).reverse
-        else go (objs.set cur { d with o := o' }) cur rest (out :: acc)
-  go [d0] 0 ops []
+        else go (objs.set cur { d with o := o' }) fresh' flen' cur rest (out :: acc)
+  go [d0] none none 0 ops []
 
 end ElfioVerif.Drv.Load
